@@ -83,8 +83,8 @@ CHECKS["C09"] = {
              "Distinct = class vector of (answer kinds, choke, disconnect, advert changes, evictions, request/cancel counts); non-trivial = at least one block answered, one dropped (choke/disconnect/reject) and one request seen."),
     "assumptions": E3_ASSUME,
     "min": {"distinct_nontrivial": {"quick": 50, "thorough": 50}, "counters": {"conservation_cuts": 10000, "allzero_checks": 300, "requests_received": 2000}},
-    "parts": [{"name": "download", "pkg": "c09_conserve", "race": False, "shards": 16, "env": {"VERIF_PROP": "C09"}},
-              {"name": "download-race", "pkg": "c09_conserve", "race": True, "shards": 16, "env": {"VERIF_PROP": "C09", "VERIF_RACE_SUBSET": "1"}}],
+    "parts": [{"name": "download", "pkg": "c09_conserve", "netns": "isolated", "race": False, "shards": 16, "env": {"VERIF_PROP": "C09"}},
+              {"name": "download-race", "pkg": "c09_conserve", "netns": "isolated", "race": True, "shards": 16, "env": {"VERIF_PROP": "C09", "VERIF_RACE_SUBSET": "1"}}],
     "technique": "runtime monitor: conservation equations (availability, in-flight) evaluated by reflect at every quiescent cut of a virtual-time swarm against both the peer actors' state and the scripted remotes' own view; storrent's own 'Eek' alarms captured; -race",
     "level_text": "The real torrent loop and peer actors run against scripted remotes in virtual time; after every step the two bookkeeping equations are evaluated at an exact quiescent cut and again after everybody disconnected. Held on the histories observed.",
     "level_note": "web-seed reservations are judged in C14; this check runs without web seeds",
@@ -95,9 +95,9 @@ CHECKS["C11"] = {
     "rule": CHECKS["C09"]["rule"].replace("the conservation equations", "the conformance monitor inside each scripted remote judging every message storrent sent"),
     "assumptions": E3_ASSUME + ["messages that reach a remote between its own state-changing message and the next quiescent cut are judged against either the old or the new state (exact exemption window)"],
     "min": {"distinct_nontrivial": {"quick": 50, "thorough": 50}, "counters": {"requests_received": 2000, "recv:bitfield": 100, "recv:cancel": 100, "recv:pex": 100}},
-    "parts": [{"name": "download", "pkg": "c09_conserve", "race": False, "shards": 16, "env": {"VERIF_PROP": "C11"}},
-              {"name": "download-race", "pkg": "c09_conserve", "race": True, "shards": 16, "env": {"VERIF_PROP": "C11", "VERIF_RACE_SUBSET": "1"}},
-              {"name": "pex", "pkg": "c09_conserve", "race": False, "shards": 16, "env": {"VERIF_PROP": "C11"}}],
+    "parts": [{"name": "download", "pkg": "c09_conserve", "netns": "isolated", "race": False, "shards": 16, "env": {"VERIF_PROP": "C11"}},
+              {"name": "download-race", "pkg": "c09_conserve", "netns": "isolated", "race": True, "shards": 16, "env": {"VERIF_PROP": "C11", "VERIF_RACE_SUBSET": "1"}},
+              {"name": "pex", "pkg": "c09_conserve", "netns": "isolated", "race": False, "shards": 16, "env": {"VERIF_PROP": "C11"}}],
     "technique": "runtime monitor: online protocol-conformance checker inside the scripted remote peer (requests, cancels, bitfields, have/dont-have, fast messages, PEX deltas) with exact exemption windows closed at quiescent cuts",
     "level_text": "Every message storrent emits in the generated histories is judged at the receiving end by an independent monitor that uses only what the remote itself sent and received. Held on the histories observed.",
     "level_note": "queue-depth rule only judged when the remote advertised reqq; bitfield-first rule allows port/extended-handshake before it",
@@ -110,8 +110,8 @@ CHECKS["C16"] = {
              "Distinct = class vector of the action and message counts; non-trivial = at least one request sent and one Piece received."),
     "assumptions": E3_ASSUME + ["the 'at most five unchoked per torrent' rotation is a mechanism, not part of the statement: it is reported, not asserted"],
     "min": {"distinct_nontrivial": {"quick": 50, "thorough": 50}, "counters": {"pieces_answering_our_requests": 2000, "unchoke_accounting_cuts_nonzero": 1000, "rejects_for_our_requests": 100}},
-    "parts": [{"name": "upload", "pkg": "c16_upload", "race": False, "shards": 16},
-              {"name": "upload-race", "pkg": "c16_upload", "race": True, "shards": 16, "env": {"VERIF_RACE_SUBSET": "1"}}],
+    "parts": [{"name": "upload", "pkg": "c16_upload", "netns": "isolated", "race": False, "shards": 16},
+              {"name": "upload-race", "pkg": "c16_upload", "netns": "isolated", "race": True, "shards": 16, "env": {"VERIF_RACE_SUBSET": "1"}}],
     "technique": "runtime monitor: upload-discipline checker inside the scripted leecher (every Piece must answer an outstanding, un-cancelled, un-choked request with the true bytes) + unchoke accounting invariant by reflect at quiescent cuts; -race",
     "level_text": "Every Piece/Reject/Choke/Unchoke storrent sends in the generated histories is judged by the receiving scripted leecher against its own request log and the truth; peer.NumUnchoking() is compared with the actors' flags and the remotes' view at every cut and after deletion. Held on the histories observed.",
     "level_note": "requests sent by a non-fast remote while it knows it is choked are expected to be dropped silently",
@@ -126,8 +126,8 @@ CHECKS["C10"] = {
     "assumptions": E3_ASSUME + ["while real Readers are open their registrations are only bounded (current piece .. end of range), exact equality with the model is demanded whenever no reader is open"],
     "min": {"distinct_nontrivial": {"quick": 100, "thorough": 100}, "counters": {"model_cuts": 10000, "waiters_woken_as_expected": 1000, "exhaustive_orderings": 15000}},
     "exhaustive_note": "part (a) enumerates all 9330 orderings of length 1..5 over the 6-event alphabet, x2 variants",
-    "parts": [{"name": "requests", "pkg": "c10_requests", "race": False, "shards": 16},
-              {"name": "requests-race", "pkg": "c10_requests", "race": True, "shards": 16, "env": {"VERIF_RACE_SUBSET": "1"}}],
+    "parts": [{"name": "requests", "pkg": "c10_requests", "netns": "isolated", "race": False, "shards": 16},
+              {"name": "requests-race", "pkg": "c10_requests", "netns": "isolated", "race": True, "shards": 16, "env": {"VERIF_RACE_SUBSET": "1"}}],
     "technique": "runtime monitor: reference model (priority multiset + wake-up register) stepped next to the real torrent loop, compared by reflect and by probing every wait channel at quiescent cuts; small event orderings enumerated exhaustively",
     "level_text": "All orderings of up to five request/withdraw/complete/fail/evict events on a piece and random multi-consumer histories with real Readers are executed against the real event loop in virtual time; stored priorities and every wait channel are compared with a reference model at each quiescent cut. Held on the executions observed.",
     "level_note": "a double close of a wait channel is observed as a crash of the child",
@@ -141,11 +141,27 @@ CHECKS["C17"] = {
     "assumptions": E3_ASSUME + ["'returns' is judged in virtual time: a call that has not returned one virtual hour after the stop is a hang; goroutine exit is checked by synctest at the end of every bubble (a leaked goroutine crashes the child and is attributed to the case)"],
     "min": {"distinct_nontrivial": {"quick": 1000, "thorough": 1000}, "counters": {"calls_checked": 1000, "calls_served": 200, "calls_refused_dead": 200, "connections_seen_closed": 500}},
     "exhaustive_note": "the (operation x stop position x peers x readers x queue depth) table is enumerated completely in every run",
-    "parts": [{"name": "lifecycle", "pkg": "c17_lifecycle", "race": False, "shards": 16},
-              {"name": "lifecycle-race", "pkg": "c17_lifecycle", "race": True, "shards": 16, "tiers": ["thorough"]}],
+    "parts": [{"name": "lifecycle", "pkg": "c17_lifecycle", "netns": "isolated", "race": False, "shards": 16},
+              {"name": "lifecycle-race", "pkg": "c17_lifecycle", "netns": "isolated", "race": True, "shards": 16, "tiers": ["thorough"]}],
     "technique": "runtime monitor with fault enumeration: every API x every stop position arranged deterministically through the parked mailbox in a synctest bubble; bounded return in virtual time; post-mortem checks (unlisted, connections closed, readers fail, memory released, goroutines exited)",
     "level_text": "Every exported blocking operation is crossed with every position of the event loop's stop, with peers, blocked readers and pending events, inside a virtual-time bubble where 'does not hang' is decidable and leaked goroutines are detected by synctest. The enumeration is complete for the listed dimensions.",
     "level_note": "positions inside a handler other than 'parked with the stop behind it' are covered only by the simultaneous repetitions",
+}
+
+CHECKS["C05"] = {
+    "level": "exploration",
+    "engine": "E3 swarm",
+    "rule": ("random hostile sequences of 1-40 well-framed messages from the full alphabet (choke..keep-alive, have, bitfield, request/cancel/reject, piece, port, suggest/allowed-fast, have-all/none, extended handshake incl. duplicates, ut_pex up to 5000 entries, ut_metadata, lt_donthave, upload_only, unknown ids / sub-ids) with boundary field values (0,1,n-1,n,n+1,2^14..2^32-1; payloads 0..2^20-9), in states metadata {known, unknown, arriving mid-sequence} x caps {none, fast, extended, both}, interleaved with the torrent's own commands (requests, evictions, ticks, deletion); a quiescent cut and the oracle after every single message; storrent-initiated disconnects are followed by a reconnect. "
+             "Distinct = hash of (number of message classes, disconnected?, metadata completed?, length class, 64 buckets); non-trivial = at least 3 messages handled."),
+    "assumptions": E3_ASSUME + ["part 'hostile' runs without -race under ulimit -v 6 GB so that an attacker-sized allocation is a clean fatal error attributed to the case; part 'hostile-race' repeats a prefix under -race with indexes capped at 2^20 and no memory limit",
+                                "allocation bound per message: 256*len(frame) + 1 MiB, measured as process-wide TotalAlloc between the cut before and the cut after the message",
+                                "non-termination of a handler would show as the child hitting the wall-clock watchdog (reported inconclusive, never as a pass)"],
+    "min": {"distinct_nontrivial": {"quick": 100, "thorough": 100}, "counters": {"messages": 10000, "canary_probes": 500, "disconnected_by_storrent": 500}},
+    "parts": [{"name": "hostile", "pkg": "c05_hostile", "netns": "isolated", "race": False, "shards": 16, "ulimit_v_kb": 6000000, "max_crashes": 40},
+              {"name": "hostile-race", "pkg": "c05_hostile", "netns": "isolated", "race": True, "shards": 16, "env": {"VERIF_CAP_INDEX": "1"}}],
+    "technique": "runtime monitor: crash / termination / per-message allocation bound / blast-radius canaries evaluated at a quiescent cut after every hostile message sent to the real peer and torrent actors; child under RLIMIT_AS; second pass under -race",
+    "level_text": "Generated hostile message sequences are sent on the wire to the real decoder->peer actor->torrent loop path in every capability and metadata state; after each message the process must be alive, quiescent, within an allocation bound proportional to the message, and canary peers/torrents must be unaffected. Held on the sequences observed.",
+    "level_note": "allocation is process-wide (includes the harness's own small allocations); huge-index classes are listed known findings",
 }
 
 MANIFEST_META = {
